@@ -3,6 +3,7 @@ package msync
 
 import (
 	"sync"
+	"unsafe"
 
 	"github.com/cinar/indicator/v2/verifmc/mc"
 )
@@ -13,9 +14,52 @@ type (
 	RWMutex   = mc.RWMutex
 	Once      = mc.Once
 	Locker    = mc.Locker
+	Cond      = mc.Cond
 	Pool      = sync.Pool
-	Map       = sync.Map
 )
+
+// NewCond mirrors sync.NewCond.
+func NewCond(l Locker) *Cond { return mc.NewCond(l) }
+
+// Map is sync.Map whose every operation is a scheduling point with acquire/release
+// semantics on the map (sync.Map operations synchronise like atomics).
+type Map struct {
+	real sync.Map
+}
+
+func (m *Map) pt() { mc.AtomicPoint(unsafe.Pointer(m)) }
+
+func (m *Map) Load(key any) (any, bool)               { m.pt(); return m.real.Load(key) }
+func (m *Map) Store(key, value any)                   { m.pt(); m.real.Store(key, value) }
+func (m *Map) LoadOrStore(key, value any) (any, bool) { m.pt(); return m.real.LoadOrStore(key, value) }
+func (m *Map) LoadAndDelete(key any) (any, bool)      { m.pt(); return m.real.LoadAndDelete(key) }
+func (m *Map) Delete(key any)                         { m.pt(); m.real.Delete(key) }
+func (m *Map) Swap(key, value any) (any, bool)        { m.pt(); return m.real.Swap(key, value) }
+func (m *Map) CompareAndSwap(key, old, new any) bool {
+	m.pt()
+	return m.real.CompareAndSwap(key, old, new)
+}
+func (m *Map) CompareAndDelete(key, old any) bool { m.pt(); return m.real.CompareAndDelete(key, old) }
+func (m *Map) Clear()                             { m.pt(); m.real.Clear() }
+func (m *Map) Range(f func(key, value any) bool) {
+	m.pt()
+	m.real.Range(func(k, v any) bool { m.pt(); return f(k, v) })
+}
+
+// OnceValue mirrors sync.OnceValue.
+func OnceValue[T any](f func() T) func() T {
+	var o Once
+	var v T
+	return func() T { o.Do(func() { v = f() }); return v }
+}
+
+// OnceValues mirrors sync.OnceValues.
+func OnceValues[T1, T2 any](f func() (T1, T2)) func() (T1, T2) {
+	var o Once
+	var v1 T1
+	var v2 T2
+	return func() (T1, T2) { o.Do(func() { v1, v2 = f() }); return v1, v2 }
+}
 
 // OnceFunc mirrors sync.OnceFunc.
 func OnceFunc(f func()) func() {
